@@ -223,6 +223,13 @@ func (ex *Exec) runConcurrent() {
 		return
 	}
 	ex.checkHistory()
+	if ex.stop() {
+		return
+	}
+	// C13: once the in-flight reads have finished the files of every segment
+	// that a truncation removed are gone and their handles closed
+	ex.sim.Quiesce("quiesce-after-readers")
+	ex.dirOracle("after-readers")
 }
 
 // checkHistory evaluates (1) the direct interval oracle with precise
